@@ -22,7 +22,13 @@ RULE = ("api: every sequence of <=3 (quick) / <=4 (thorough) calls over a 13-cal
         "3-operand products) x all pairs of small leaf fibers, plus seeded random shapes (all loop orders) x random "
         "operands of depth 1-3 with explicit zeros, empty sub-fibers, cancelling sums, empty operands, preloaded "
         "outputs, declared/undeclared output shape, format-U leaf ranks x every kind of trace subset (none, iter, "
-        "all eight trace types, random) x 0-3 earlier sessions. non-trivial api case = a session with at least one "
+        "all eight trace types, random) x 0-3 earlier sessions x innermost statement spelled with __mul__/__rmul__/__imul__/"
+        "__add__/__radd__/__iadd__/__ilshift__ x kernel applied twice to the same objects / operands reused from an earlier "
+        "collecting session / objects built inside the bracket x operand shapes exact, larger, estimated x coordinates up to 11; "
+        "program (no Lean model, spec on the implementation's observations): the C06 program generator (tilings, right-nested and "
+        "hoisted intersections, Fiber.intersection two-finger / leader-follower / filtered) x format U on any rank of any operand or "
+        "of the output, unowned-fiber operands with their own rank attributes, int / float / bool values, same reuse variants; all "
+        "kernel kinds also compare output attributes (ids, shape, default, formats) and the operands left behind off vs on. non-trivial api case = a session with at least one "
         "counter or started trace; non-trivial kernel case = at least one loop body ran and a trace or counter moved")
 
 RANKS = ["M", "K", "N"]
@@ -321,7 +327,7 @@ def gen_api(rng, tier):
         for combo in itertools.product(ALPHABET, repeat=n):
             ops = prelude + [list(o) for o in combo]
             yield {"prop": PROP, "kind": "api", "ops": ops + [["endCollect"]], "sess_start": -1}
-    nrand = 2000 if tier == "quick" else 60000
+    nrand = 1500 if tier == "quick" else 60000
     for i in range(nrand):
         ops = []
         for _ in range(rng.choice([0, 1, 1, 2, 3])):
@@ -392,7 +398,8 @@ def _trace_choice(rng, loops):
     return [[v, t] for v in RANKS for t in TYPES if rng.random() < 0.3]
 
 
-def _hist(rng, pfx):
+def _hist(rng, pfx, names=None):
+    names = names or RANKS
     ops = []
     for _ in range(rng.choice([0, 0, 1, 1, 2, 3])):
         p = pfx if rng.random() < 0.7 else rng.choice(PFX)
@@ -401,8 +408,8 @@ def _hist(rng, pfx):
             s = [["beginCollect", p]]
             if rng.random() < 0.3:
                 s.insert(0, ["setNumCachedUses", rng.choice([2, 3, 5])])
-            ranks = rng.sample(RANKS, rng.randrange(1, 4))
-            s += [["trace", r, "iter", False] for r in RANKS if rng.random() < 0.7]
+            ranks = rng.sample(names, rng.randrange(1, min(3, len(names)) + 1))
+            s += [["trace", r, "iter", False] for r in names if rng.random() < 0.7]
             s += _nest_body(rng, ranks, ["iter"])
             if rng.random() < 0.85:
                 s.append(["endCollect"])
@@ -413,7 +420,7 @@ def _hist(rng, pfx):
 
 
 def _mk_kernel(rng, loops, out, opranks, n=None, small=None):
-    n = n or rng.choice([2, 3, 4])
+    n = n or rng.choice([2, 3, 4, 4, 3, 2, 3, 12])      # 12: coordinates 9, 10, 11 (string vs numeric order in the files)
     pool = (1, 2, -1, -2, 3, 0)
     ops = []
     for rk in opranks:
@@ -422,7 +429,7 @@ def _mk_kernel(rng, loops, out, opranks, n=None, small=None):
         elif rng.random() < 0.06:
             t = []
         else:
-            t = H.gen_tree(rng, len(rk), n, pool, 0, p_absent=rng.choice([0.05, 0.2, 0.4]))
+            t = H.gen_tree(rng, len(rk), n, pool, 0, p_absent=(rng.choice([0.5, 0.7]) if n > 4 else rng.choice([0.05, 0.2, 0.4])))
         ops.append({"ranks": rk, "t": t})
     if out and rng.random() < 0.2:
         z = H.gen_tree(rng, len(out), n, pool, 0, p_absent=0.5)
@@ -504,11 +511,178 @@ def gen_kernel(rng, tier):
         yield _mk_kernel(rng, loops, out, opr)
 
 
+
+# ---------------------------------------------------------------------------------------
+# programs of the whole C06 family (spec evaluated on the implementation's observations only)
+# ---------------------------------------------------------------------------------------
+
+def _k6():
+    from harness.props import c06
+    return c06
+
+
+def _scale(t, depth, f):
+    if depth == 0:
+        return f(t)
+    return [[c, _scale(s, depth - 1, f)] for c, s in t]
+
+
+VALS = {"int": lambda v: v, "float": lambda v: v * 0.5, "bool": lambda v: bool(v)}
+
+
+def _mk_program(rng, c6):
+    K6 = _k6()
+    opranks, zranks = K6.plan(c6)
+    tiles = c6["tiles"]
+    names = [K6.lname(l, tiles) for l in c6["order"]]
+    case = {"prop": PROP, "kind": "program", "k6": {k: v for k, v in c6.items() if k != "prop"},
+            "ranks": names, "style": c6["style"], "tiled": int(bool(tiles)), "pfx": rng.choice(PFX),
+            "zdecl": rng.random() < 0.65, "vals": rng.choice(["int", "int", "int", "float", "float", "bool"])}
+    u = rng.random()
+    case["traces"] = ([] if u < 0.1 else [[v, "iter"] for v in names] if u < 0.4 else
+                      [[v, t] for v in names for t in TYPES] if u < 0.55 else
+                      [[v, t] for v in names for t in TYPES if rng.random() < 0.3])
+    case["hist"] = _hist(rng, case["pfx"], names)
+    # formats: "U" on any rank of any operand / of the destination
+    fmt = []
+    if rng.random() < 0.35:
+        cands = [[i, K6.lname(l, tiles)] for i, r in enumerate(opranks) for l in r] + [["Z", K6.lname(l, tiles)] for l in zranks]
+        for c in cands:
+            if rng.random() < 0.35:
+                fmt.append(c)
+    case["fmtU"] = fmt
+    case["nU"] = len(fmt)
+    # a one-rank untiled operand handed over as a bare (unowned) fiber that carries its own rank attributes
+    case["bare"] = 0
+    if rng.random() < 0.15:
+        for i, op in enumerate(c6["ops"]):
+            if len(op["ranks"]) == 1 and not any(v == op["ranks"][0] for v, _ in tiles):
+                case["bare"], case["bare_op"] = 1, i
+                break
+    # ranks walked densely: the loop's only source is one operand in format "U", and it is not an output rank
+    solo = []
+    pos = [0] * len(opranks)
+    for l in c6["order"]:
+        parts = [i for i in range(len(opranks)) if pos[i] < len(opranks[i]) and opranks[i][pos[i]] == l]
+        nm = K6.lname(l, tiles)
+        if len(parts) == 1 and l not in zranks and [parts[0], nm] in fmt:
+            solo.append(nm)
+        for i in parts:
+            pos[i] += 1
+    case["solo_u"] = solo
+    u = rng.random()
+    if u < 0.08:
+        case["repeat"] = 2
+    elif u < 0.16:
+        case["pre"] = 1
+    elif u < 0.3:
+        case["inside"] = 1
+    return case
+
+
+def gen_program(rng, seed, tier):
+    K6 = _k6()
+    base = [c for c in K6.gen(seed, "quick") if K6.well_formed(c)]
+    want = 900 if tier == "quick" else 30000
+    stride = max(1, len(base) // want)
+    for c6 in base[rng.randrange(stride)::stride]:
+        yield _mk_program(rng, c6)
+
+
+class _Bare:
+    def __init__(self, f):
+        self.f = f
+
+    def getRoot(self):
+        return self.f
+
+
+class _ProgramRunner:
+    @staticmethod
+    def build_ops(case):
+        K6, ft = _k6(), H.ft()
+        c6 = case["k6"]
+        n, tiles = c6["n"], c6["tiles"]
+        opranks, _ = K6.plan(c6)
+        f = VALS[case["vals"]]
+        tensors = []
+        for i, (op, target) in enumerate(zip(c6["ops"], opranks)):
+            d = len(op["ranks"])
+            fib = H.build_fiber(_vals_tree(op["t"], d, f), d, 0)
+            if case.get("bare") and case.get("bare_op") == i:
+                fib.getRankAttrs().setId(K6.lname(target[0], tiles))
+                if c6.get("declared", True):
+                    fib.getRankAttrs().setShape(n)
+                if [i, K6.lname(target[0], tiles)] in case["fmtU"]:
+                    fib.getRankAttrs().setFormat("U")
+                tensors.append(_Bare(fib))
+                continue
+            kw = {"shape": [n] * d} if c6.get("declared", True) else {}
+            T = ft.Tensor.fromFiber(rank_ids=[str(v) for v in op["ranks"]], fiber=fib, default=0, **kw)
+            for v, step in tiles:
+                if v in op["ranks"]:
+                    T = T.splitUniform(step, rankid=str(v))
+            T = T.swizzleRanks([K6.lname(l, tiles) for l in target])
+            for who, nm in case["fmtU"]:
+                if who == i:
+                    T.setFormat(nm, "U")
+            tensors.append(T)
+        return tensors
+
+    @staticmethod
+    def new_z(case, pre=False):
+        K6, ft = _k6(), H.ft()
+        c6 = case["k6"]
+        _, zranks = K6.plan(c6)
+        ids = [K6.lname(l, c6["tiles"]) for l in zranks]
+        if (pre or case["zdecl"]) and ids:
+            Z = ft.Tensor(rank_ids=ids, shape=[c6["n"]] * len(ids), default=0)
+        else:
+            Z = ft.Tensor(rank_ids=ids, default=0)
+        for who, nm in case["fmtU"]:
+            if who == "Z":
+                Z.setFormat(nm, "U")
+        return Z
+
+    @staticmethod
+    def execute(case, ops, z, bodies):
+        K6, ft = _k6(), H.ft()
+        c6 = case["k6"]
+        src = case.get("_src")
+        if src is None:
+            lines = []
+            for ln in K6.render(c6).split("\n"):
+                lines.append(ln)
+                st = ln.lstrip()
+                if st.startswith("for c"):
+                    l = int(st[5:st.index(",")])
+                    nm = K6.lname(l, c6["tiles"])
+                    lines.append(" " * (len(ln) - len(st) + 4) + f"B[{nm!r}] = B.get({nm!r}, 0) + 1")
+            src = case["_src"] = "\n".join(lines)
+        env = {"Fiber": ft.Fiber, "Payload": ft.Payload, "B": bodies}
+        exec(compile(src, "<kernel>", "exec"), env)
+        env["kernel"](z, *ops)
+
+
+def _vals_tree(t, depth, f):
+    if depth == 1:
+        return [[c, f(v)] for c, v in t]
+    return [[c, _vals_tree(s, depth - 1, f)] for c, s in t]
+
+
+def run_program(case):
+    case = _run_measured(case, _ProgramRunner)
+    case.pop("_src", None)
+    return case
+
+
 def gen(seed, tier):
     rng = random.Random(seed)
     yield from gen_api(rng, tier)
     rng = random.Random(seed + 1)
     yield from gen_kernel(rng, tier)
+    rng = random.Random(seed + 2)
+    yield from gen_program(rng, seed, tier)
 
 
 # ---------------------------------------------------------------------------------------
@@ -671,6 +845,16 @@ def _numiters(path):
     return C.numIters(path)
 
 
+def _attrs(z):
+    """what else a result tensor says about itself: rank ids, shape, default, per-rank format"""
+    try:
+        ids = z.getRankIds()
+        return {"ids": ids, "shape": z.getShape(), "default": H._val(H.ft().Payload.get(z.getDefault())),
+                "fmt": [z.getFormat(r) for r in ids]}
+    except Exception as e:
+        return {"err": type(e).__name__}
+
+
 def _err_info(e):
     import traceback
     tb = traceback.extract_tb(e.__traceback__)
@@ -713,6 +897,8 @@ def _session(case, R, d, collect, with_pre):
             for _ in range(case.get("repeat", 1)):
                 R.execute(case, ops, z, bodies)
             obs["res"] = H.snapshot(z.getRoot())
+            obs["attrs"] = _attrs(z)
+            obs["ops_after"] = [H.snapshot(o.getRoot()) if hasattr(o, "getRoot") else H.snapshot(o[1]) for o in ops]
         except Exception as e:  # an abort is an observation
             name, line = _err_info(e)
             obs["res"] = {"err": name}
@@ -769,6 +955,11 @@ def _run_measured(case, R):
     if "end_err" in on:
         side["endCollect_ok:" + on["end_err"]] = False
     side["only_Compute_line"] = on["lines"] in ([], ["Compute"])
+    side["earlier_sessions_ran"] = herr < 0
+    if "attrs" in on and "attrs" in off:
+        side["same_output_attributes_off_and_on"] = on["attrs"] == off["attrs"]
+        side["same_operands_left_behind_off_and_on"] = on["ops_after"] == off["ops_after"]
+        side["fresh_process_same_result"] = fresh.get("res") == on["res"] and fresh.get("attrs") == on["attrs"]
     side["same_operators_off_and_on"] = off["wrap"] == on["wrap"] or "err" in str(on["res"])[:8] or "err" in str(off["res"])[:8]
     side["same_loop_bodies_off_and_on"] = off["bodies"] == on["bodies"] or "err" in str(on["res"])[:8] or "err" in str(off["res"])[:8]
     case["impl"] = obs
@@ -803,7 +994,9 @@ def run_api(case):
 
 
 def run(case):
-    return run_api(case) if case["kind"] == "api" else run_kernel(case)
+    if case["kind"] == "api":
+        return run_api(case)
+    return run_program(case) if case["kind"] == "program" else run_kernel(case)
 
 
 def nontrivial(case, verdict):
@@ -812,6 +1005,8 @@ def nontrivial(case, verdict):
         return False
     if case["kind"] == "api":
         return "session" in t and bool(t & {"started", "history", "rejected", "never-started"})
+    if case["kind"] == "program":
+        return "effectual" in t
     return bool(t & {"mul", "add", "traced-iterated", "revisit"})
 
 
@@ -844,7 +1039,7 @@ def _classes(why):
 
 
 def signature(case, verdict, failed):
-    kind = case["kind"]
+    kind = "kernel" if case["kind"] == "program" else case["kind"]      # programs are kernels: same finding classes
     cls = _classes(verdict.get("why", "")) if "spec" in failed else []
     sides = sorted(f.split(":")[0] for f in failed if f != "spec")
     new = [c for c in cls if c not in DOCUMENTED] + sides
@@ -891,6 +1086,30 @@ def shrink_candidates(case):
         c = dict(case)
         c["traces"] = case["traces"][:i] + case["traces"][i + 1:]
         yield c
+    for key in ("repeat", "pre", "inside"):
+        if case.get(key):
+            c = dict(case)
+            c.pop(key)
+            yield c
+    if case["kind"] == "program":
+        for i in range(len(case["fmtU"])):
+            c = dict(case)
+            c["fmtU"] = case["fmtU"][:i] + case["fmtU"][i + 1:]
+            c["nU"] = len(c["fmtU"])
+            c["solo_u"] = [r for r in case["solo_u"] if any(nm == r for _, nm in c["fmtU"])]
+            yield c
+        if case["vals"] != "int":
+            c = dict(case)
+            c["vals"] = "int"
+            yield c
+        for k, o in enumerate(case["k6"]["ops"]):
+            for t2 in _tree_shrinks(o["t"]):
+                c = dict(case)
+                c["k6"] = dict(case["k6"])
+                c["k6"]["ops"] = [dict(x) for x in case["k6"]["ops"]]
+                c["k6"]["ops"][k]["t"] = t2
+                yield c
+        return
     for k, o in enumerate(case["ops"]):
         for t2 in _tree_shrinks(o["t"]):
             c = dict(case)
